@@ -294,7 +294,7 @@ func vkCrashHistory(c *vkit.Ctx, side *vkCrashSide, h vkCHist, power bool, count
 				// a later successful persist must converge
 				follow := vkPOp{Op: "set", Keys: []string{"a.a.a."}}
 				if v := vkStep(b3, m3, h.White, follow); v != "" {
-					key, msg = "fault-memory", "follow-up " + follow.String() + ": " + v
+					key, msg = "fault-memory", "follow-up "+follow.String()+": "+v
 				} else if vd := vkReloadOracle(side.base, d3, b3, h.White, map[string]vkReloadVerdict{}); vd.behaviour != "" {
 					key, msg = "fault-converge", fmt.Sprintf("the %s of persist failed once; after the next successful update: %s", failed, vd.behaviour)
 				}
